@@ -1,4 +1,6 @@
 """Symbolic interpretation of obligations (proving interpreter only: imports the SMT layer)."""
+import contextlib
+import io
 import time
 from fractions import Fraction
 
@@ -347,7 +349,8 @@ def run_symbolic(fn, repo, eager=False, cert_backends=("z3",), max_paths=MAX_PAT
         rec = {"trail": None, "goals": []}
         certs = []
         try:
-            fn(k)
+            with contextlib.redirect_stdout(io.StringIO()):
+                fn(k)
             k.finish(certs if cert_backends else None)
             if certs and cert_backends:
                 cc = smt.check_certificates(st, certs, cert_backends)
